@@ -224,6 +224,15 @@ theorem logged_message_roundtrip (ms : List (List Frame)) (l : List Frame) (hs :
   apply List.map_congr_left
   intro kv _; rfl
 
+/-- A request whose body is `http.NoBody` is logged as an empty body read once to end-of-file
+(one data frame: index 0, terminal, no bytes), whatever the consumer does with `http.NoBody`
+afterwards; so `logged_message_roundtrip` applies to it with `reads := noBodyReads`. -/
+theorem nobody_request_is_empty_body (id : Bytes) (hdrs : List (Bytes × Bytes)) (reads : List ReadRes) :
+    requestFrames id hdrs true reads = messageFrames 1 id hdrs noBodyReads ∧
+    (bodyRun 1 (id.take 8) 0 noBodyReads).2 = [Frame.data 1 (id.take 8) 0 true []] ∧
+    requestFrames id hdrs false reads = messageFrames 1 id hdrs reads :=
+  ⟨rfl, rfl, rfl⟩
+
 /-! ## non-vacuity: the hypotheses above are satisfiable by a concrete two-message interleaving -/
 
 def idA : Bytes := strBytes "aaaaaaaa"
